@@ -28,6 +28,7 @@ RULE = (
     "residue sequences with random digest parameters (peptide sets taken from mokapot.digest); hashseed: the "
     "same structures under PYTHONHASHSEED 0..3. Non-trivial = some protein's peptide set is contained in "
     "another's or some peptide occurs in >=2 proteins; distinct = distinct incidence structure."
+    " The protein map may list no decoy entry as a target."
 )
 ASSUMPTIONS = [
     "protein names contain no ', ' / '; ' (group membership is parsed from group names)",
